@@ -329,6 +329,7 @@ def corr(kinds, prop_id):
     return run
 
 COMMON_TRUST = [
+    "exercised-code obligation: every basic block of the retry files / circuitBreakerConfig.go the property is anchored in must be executed by a case compared with the model (all case kinds with seed 0 + the property's own cases); dead blocks are listed with reasons in corpus/unreached.tsv",
     "math.Pow and strconv.ParseFloat are oracles: the harness passes Go's own answer to the model",
     "float64 modelled as Coq.Floats.SpecFloat binary64 (prec 53, emax 1024), round-to-nearest-even; no FMA (amd64)",
     "int64(float) outside the int64 range modelled as amd64's MinInt64; theorems prove the conversion is in range wherever the code converts",
